@@ -705,6 +705,23 @@ class Engine(object):
             return None
         if len(states) == 1:
             return states[0]
+        # a local that is a tuple literal on one path and a term (None, a loop-carried tuple value) on another: the
+        # literal is stored as a tuple object on its own path first, so that the merged value is an ordinary term
+        if not self.in_spec:
+            all_names = set()
+            for s in states:
+                all_names.update(s.env)
+            for name in all_names:
+                vals = [s.env.get(name) for s in states]
+                live = [v for v in vals if v is not None and v is not POISON]
+                if any(v.kind == "pytuple" for v in live) and any(v.z is not None for v in live):
+                    for s in states:
+                        v = s.env.get(name)
+                        if v is not None and v is not POISON and v.kind == "pytuple":
+                            try:
+                                s.env[name] = self.box(s, v)
+                            except Undecided:
+                                pass
         # common pc prefix
         n = min(len(s.pc) for s in states)
         k = 0
